@@ -15,6 +15,16 @@ fn series(rng: &mut Rng, len: usize) -> Vec<f64> {
     (0..len).map(|i| if m[i] { f64::NAN } else { rng.range(-12, 12) as f64 / 4.0 }).collect()
 }
 
+/// series for the backend matrix: mostly valid (a result that is null everywhere cannot tell two backends apart),
+/// many distinct values, a few nulls in structured places
+fn mseries(rng: &mut Rng, len: usize) -> Vec<f64> {
+    let style = rng.below(10);
+    (0..len).map(|i| {
+        let null = match style { 0..=3 => false, 4..=7 => rng.chance(1, 7), 8 => i < len / 4, _ => i % 3 == 1 };
+        if null { f64::NAN } else { rng.range(-40, 40) as f64 / 4.0 }
+    }).collect()
+}
+
 /// observation of a Vec1View<f64>-like container; `$sl` turns its slice output into Vec<f64>
 macro_rules! observe {
     ($v:expr, $cell:expr, $sl:expr, $tas:expr) => {{
@@ -130,7 +140,8 @@ macro_rules! all_inputs {
         // reference: Vec -> Vec, returned
         let refc: Vec<Cell> = match guarded(std::panic::AssertUnwindSafe(|| { let o: Vec<f64> = xs.$f($($a),*); cells_f64(&o) })) {
             Ok(c) => c, Err(k) => vec![Cell::Panic(k)] };
-        let tg = |be: &str| format!("fn={} in={} len={}{}", $fname, be, len.min(20), if len == 0 { " nt=0" } else { "" });
+        let nvalid = xs.iter().filter(|x| !x.is_nan()).count();
+        let tg = |be: &str| format!("fn={} in={} len={} valid={}{}", $fname, be, len.min(20), if nvalid == 0 { "none" } else if nvalid == len { "all" } else { "some" }, if len == 0 { " nt=0" } else { "" });
         let ds = |be: &str| format!("fn={} in={} {}", $fname, be, $desc);
         all_outputs!($em, tg("vec"), ds("vec"), refc, xs, $f, $fto, ($($a),*));
         // ([T] is unsized: the blanket impls of the rolling traits need Sized, so the bare slice backend is
@@ -236,27 +247,42 @@ fn main() {
         }
     }
     // ================= (b) the matrix =============================================================
-    let nser = if thorough { 14 } else { 5 };
+    let nser = if thorough { 16 } else { 7 };
     for si in 0..nser {
-        let len = if si == 0 { 0 } else if si == 1 { 1 } else { rng.range(2, if thorough { 16 } else { 9 }) as usize };
-        let xs = series(&mut rng, len);
-        let ys = series(&mut rng, len);
-        let w = if len == 0 { 2 } else { rng.range(1, len as i64 + 2) as usize };
-        let mp = if rng.chance(1, 2) { None } else { Some(rng.range(0, w as i64) as usize) };
-        let desc = format!("w={} mp={:?} xs={:?}", w, mp, xs);
-        all_inputs!(em, rng, "ts_vsum", desc, &xs, ts_vsum, ts_vsum_to, (w, mp));
-        all_inputs!(em, rng, "ts_vstd", desc, &xs, ts_vstd, ts_vstd_to, (w, mp));
-        all_inputs!(em, rng, "ts_vargmin", desc, &xs, ts_vargmin, ts_vargmin_to, (w, mp));
-        all_inputs!(em, rng, "ts_vmax", desc, &xs, ts_vmax, ts_vmax_to, (w, mp));
-        all_inputs!(em, rng, "ts_vminmaxnorm", desc, &xs, ts_vminmaxnorm, ts_vminmaxnorm_to, (w, mp));
-        all_inputs!(em, rng, "ts_vzscore", desc, &xs, ts_vzscore, ts_vzscore_to, (w, mp));
-        all_inputs!(em, rng, "ts_vreg_resid_mean", desc, &xs, ts_vreg_resid_mean, ts_vreg_resid_mean_to, (w, mp));
-        all_inputs!(em, rng, "ts_vtsf", desc, &xs, ts_vtsf, ts_vtsf_to, (w, mp));
-        all_inputs!(em, rng, "ts_vrank", desc, &xs, ts_vrank, ts_vrank_to, (w, mp, false, false));
-        let desc2 = format!("w={} mp={:?} xs={:?} ys={:?}", w, mp, xs, ys);
-        all_inputs!(em, rng, "ts_vcorr", desc2, &xs, ts_vcorr, ts_vcorr_to, (&ys, w, mp));
-        all_inputs!(em, rng, "ts_vregx_resid_std", desc2, &xs, ts_vregx_resid_std, ts_vregx_resid_std_to, (&ys, w, mp));
-        all_inputs!(em, rng, "ts_vregx_beta", desc2, &xs, ts_vregx_beta, ts_vregx_beta_to, (&ys, w, mp));
+        let len = if si == 0 { 0 } else if si == 1 { 1 } else { rng.range(2, if thorough { 16 } else { 12 }) as usize };
+        // one series pair with the hostile null patterns of the other checks, the rest mostly valid
+        let (xs, ys) = if si == 2 { (series(&mut rng, len), series(&mut rng, len)) } else { (mseries(&mut rng, len), mseries(&mut rng, len)) };
+        let npairs = xs.iter().zip(ys.iter()).filter(|(a, b)| !a.is_nan() && !b.is_nan()).count();
+        // every window regime per series: 1, 2, 3 (history much longer than the window, so that an element
+        // expires at most positions), len-1, len, len+1 (never full) — a drift that starts only after the first
+        // expiry cannot hide behind one unlucky random window
+        let mut ws: Vec<usize> = if len == 0 { vec![2] } else { vec![1, 2, 3, len.saturating_sub(1).max(1), len, len + 1, rng.range(1, len as i64 + 2) as usize] };
+        ws.sort(); ws.dedup();
+        for w in ws {
+            let mp = if rng.chance(1, 2) { None } else { Some(rng.range(0, w as i64) as usize) };
+            let desc = format!("w={} mp={:?} xs={:?}", w, mp, xs);
+            all_inputs!(em, rng, "ts_vsum", desc, &xs, ts_vsum, ts_vsum_to, (w, mp));
+            all_inputs!(em, rng, "ts_vstd", desc, &xs, ts_vstd, ts_vstd_to, (w, mp));
+            all_inputs!(em, rng, "ts_vargmin", desc, &xs, ts_vargmin, ts_vargmin_to, (w, mp));
+            all_inputs!(em, rng, "ts_vmax", desc, &xs, ts_vmax, ts_vmax_to, (w, mp));
+            all_inputs!(em, rng, "ts_vminmaxnorm", desc, &xs, ts_vminmaxnorm, ts_vminmaxnorm_to, (w, mp));
+            all_inputs!(em, rng, "ts_vzscore", desc, &xs, ts_vzscore, ts_vzscore_to, (w, mp));
+            all_inputs!(em, rng, "ts_vreg_resid_mean", desc, &xs, ts_vreg_resid_mean, ts_vreg_resid_mean_to, (w, mp));
+            all_inputs!(em, rng, "ts_vtsf", desc, &xs, ts_vtsf, ts_vtsf_to, (w, mp));
+            all_inputs!(em, rng, "ts_vrank", desc, &xs, ts_vrank, ts_vrank_to, (w, mp, false, false));
+            let desc2 = format!("w={} mp={:?} pairs={} xs={:?} ys={:?}", w, mp, npairs, xs, ys);
+            all_inputs!(em, rng, "ts_vcorr", desc2, &xs, ts_vcorr, ts_vcorr_to, (&ys, w, mp));
+            all_inputs!(em, rng, "ts_vregx_resid_std", desc2, &xs, ts_vregx_resid_std, ts_vregx_resid_std_to, (&ys, w, mp));
+            all_inputs!(em, rng, "ts_vregx_beta", desc2, &xs, ts_vregx_beta, ts_vregx_beta_to, (&ys, w, mp));
+            // the second series on other backends too (a wrapped ring buffer, a reversed strided view)
+            let mut yd: VecDeque<f64> = VecDeque::with_capacity(len.max(1));
+            for _ in 0..(len / 2 + 1) { yd.push_back(0.0) } for _ in 0..(len / 2 + 1) { yd.pop_front(); }
+            for y in ys.iter() { yd.push_back(*y) }
+            all_inputs!(em, rng, "ts_vcov/other=deque", desc2, &xs, ts_vcov, ts_vcov_to, (&yd, w, mp));
+            let yrev = Array1::from_vec(ys.iter().rev().cloned().collect::<Vec<f64>>());
+            let yv: ArrayView1<f64> = yrev.slice(s![..;-1]);
+            all_inputs!(em, rng, "ts_vregx_alpha/other=nd_step-1", desc2, &xs, ts_vregx_alpha, ts_vregx_alpha_to, (&yv, w, mp));
+        }
     }
     em.finish();
 }
